@@ -109,4 +109,329 @@ theorem gen_predict_shape_eq (idx : List IdxItem) (shape : List Nat)
     simp only [bind, Except.bind, pure, Except.pure, hc, asList_ofList, e1, e2, List.nil_append, List.drop_zero]
     rfl
 
+/-! ### calc_slicedefs -/
+
+theorem revAux_ofList (l acc : List V) : revAux (ofList l) (ofList acc) = .ok (ofList (l.reverse ++ acc)) := by
+  induction l generalizing acc with
+  | nil => simp [revAux]
+  | cons x xs ih =>
+    simp only [ofList_cons, revAux]
+    have := ih (x :: acc)
+    simp only [ofList_cons] at this
+    rw [this]; simp
+
+theorem reversed_ofList (l : List V) : reversed (ofList l) = .ok (ofList l.reverse) := by
+  unfold reversed
+  simp only [asList_ofList, bind_ok]
+  have := revAux_ofList l []
+  simpa using this
+
+/-- a read item as an index item (what `predict_shape(read_slicers, in_shape)` is handed) -/
+def readToIdx : ReadItem → IdxItem
+  | .int i => .int i
+  | .full => .slice pySliceNone
+  | .slice a b c => .slice ⟨some a, some b, some c⟩
+  | .newaxis => .newaxis
+
+theorem ofRead_eq_ofIdx (r : ReadItem) : ofRead r = ofIdx (readToIdx r) := by
+  cases r <;> rfl
+
+theorem slice2len_full_range (n : Nat) : slice2len ⟨some 0, some (n : Int), some 1⟩ n = n := by
+  unfold slice2len
+  have hne : (⟨some 0, some (n : Int), some 1⟩ : PySlice) ≠ pySliceNone := by
+    intro h; cases h
+  simp only [hne, if_false]
+  unfold fillSlicer fullSlicerLen PySlice.indices PySlice.stepVal PySlice.adjust1
+  simp
+  split <;> simp_all <;> omega
+
+/-- canonicalising canonical read items changes nothing that `predict_shape` looks at -/
+theorem canon_read (rs : List ReadItem) : ∀ (shape : List Nat), ReadCanon rs shape →
+    ∃ items, canonLoop true (rs.map readToIdx) shape = .ok items ∧ predictLoop items shape = readShape rs shape := by
+  induction rs with
+  | nil =>
+    intro shape hc
+    cases shape with
+    | nil => exact ⟨[], rfl, rfl⟩
+    | cons n sh => exact hc.elim
+  | cons r rest ih =>
+    intro shape hc
+    cases r with
+    | newaxis =>
+      rw [readCanon_newaxis] at hc
+      obtain ⟨items, e1, e2⟩ := ih shape hc
+      refine ⟨.newaxis :: items, ?_, ?_⟩
+      · simp only [List.map_cons, readToIdx, canonLoop_newaxis, e1]; rfl
+      · rw [readShape_newaxis, ← e2]; cases shape <;> rfl
+    | int i =>
+      cases shape with
+      | nil => exact hc.elim
+      | cons n sh =>
+        rw [readCanon_cons _ _ _ _ (by intro h; cases h)] at hc
+        obtain ⟨items, e1, e2⟩ := ih sh hc.2
+        have hci : canonItem n true (.int i) = .ok (.int i) := by
+          have := hc.1
+          simp only [ReadItem.Canon] at this
+          unfold canonItem
+          have h1 : ¬ i < 0 := by omega
+          have h2 : ¬ (i ≥ (n : Int)) := by omega
+          simp [h1, h2]
+        refine ⟨.int i :: items, ?_, ?_⟩
+        · simp only [List.map_cons, readToIdx]
+          rw [canonLoop_cons _ _ _ _ _ (by intro h; cases h) (by intro h; cases h), hci, e1]; rfl
+        · rw [readShape_int, ← e2]; rfl
+    | full =>
+      cases shape with
+      | nil => exact hc.elim
+      | cons n sh =>
+        rw [readCanon_cons _ _ _ _ (by intro h; cases h)] at hc
+        obtain ⟨items, e1, e2⟩ := ih sh hc.2
+        have hci : canonItem n true (.slice pySliceNone) = .ok (.slice pySliceNone) := by
+          unfold canonItem; simp
+        refine ⟨.slice pySliceNone :: items, ?_, ?_⟩
+        · simp only [List.map_cons, readToIdx]
+          rw [canonLoop_cons _ _ _ _ _ (by intro h; cases h) (by intro h; cases h), hci, e1]; rfl
+        · rw [readShape_full, ← e2]; rfl
+    | slice a b c =>
+      cases shape with
+      | nil => exact hc.elim
+      | cons n sh =>
+        rw [readCanon_cons _ _ _ _ (by intro h; cases h)] at hc
+        obtain ⟨items, e1, e2⟩ := ih sh hc.2
+        by_cases hfull : b = (n : Int) ∧ a = 0 ∧ c = 1
+        · obtain ⟨rfl, rfl, rfl⟩ := hfull
+          have hci : canonItem n true (.slice ⟨some 0, some (n : Int), some 1⟩) = .ok (.slice pySliceNone) := by
+            unfold canonItem; simp [pySliceNone]
+          refine ⟨.slice pySliceNone :: items, ?_, ?_⟩
+          · simp only [List.map_cons, readToIdx]
+            rw [canonLoop_cons _ _ _ _ _ (by intro h; cases h) (by intro h; cases h), hci, e1]; rfl
+          · rw [readShape_slice, ← e2, slice2len_full_range]
+            show slice2len pySliceNone n :: _ = _
+            simp [slice2len]
+        · have hci : canonItem n true (.slice ⟨some a, some b, some c⟩) = .ok (.slice ⟨some a, some b, some c⟩) := by
+            unfold canonItem
+            have : ¬ ((some b = some (n : Int)) ∧ (some a = Option.none ∨ some a = some 0) ∧
+                (some c = Option.none ∨ some c = some 1)) := by
+              rintro ⟨h1, h2, h3⟩
+              apply hfull
+              refine ⟨by simpa using h1, ?_, ?_⟩
+              · rcases h2 with h | h
+                · cases h
+                · simpa using h
+              · rcases h3 with h | h
+                · cases h
+                · simpa using h
+            simp only [pySliceNone, this, if_false]
+            simp
+          refine ⟨.slice ⟨some a, some b, some c⟩ :: items, ?_, ?_⟩
+          · simp only [List.map_cons, readToIdx]
+            rw [canonLoop_cons _ _ _ _ _ (by intro h; cases h) (by intro h; cases h), hci, e1]; rfl
+          · rw [readShape_slice, ← e2]; rfl
+
+theorem predictShape_read (rs : List ReadItem) (shape : List Nat) (hc : ReadCanon rs shape) :
+    predictShape (rs.map readToIdx) shape = .ok (readShape rs shape) := by
+  obtain ⟨items, e1, e2⟩ := canon_read rs shape hc
+  unfold predictShape canonicalSlicers
+  simp [e1, e2, bind, Except.bind, pure, Except.pure]
+
+abbrev DLoc := Gen.C06F.calc_slicedefs_Locals
+
+def isFullPost : PostItem → Bool
+  | .slice s => decide (s = pySliceNone)
+  | _ => false
+
+theorem pyEq_ofPost_full (p : PostItem) : pyEq (ofPost p) (slice1 V.none) = isFullPost p := by
+  cases p with
+  | int i => rfl
+  | dropped => rfl
+  | slice s => simp [ofPost, isFullPost, pyEq_ofPySlice_none]
+
+def updA (s : DLoc) (a x : V) : DLoc := { s with _all1 := a, s_ := x }
+
+/-- the `all(s == slice(None) for s in post_slicers)` loop -/
+theorem dloop_eq (H : V → V → V → M V) (ps : List PostItem) : ∀ (s : DLoc) (b : Bool), s._all1 = .bool b →
+    ∃ y, Gen.C06F.calc_slicedefs_loop1 H (ofList (ps.map ofPost)) s =
+      .ok (.next (updA s (.bool (b && ps.all isFullPost)) y)) := by
+  induction ps with
+  | nil =>
+    intro s b h
+    refine ⟨s.s_, ?_⟩
+    cases s
+    simp_all [Gen.C06F.calc_slicedefs_loop1, updA]
+  | cons p rest ih =>
+    intro s b h
+    have hb : Gen.C06F.calc_slicedefs_body1 H { s with s_ := ofPost p } =
+        .ok (.next (updA s (.bool (b && isFullPost p)) (ofPost p))) := by
+      unfold Gen.C06F.calc_slicedefs_body1
+      simp only [pyEq_ofPost_full]
+      cases hp : isFullPost p <;> simp [updA, h]
+    obtain ⟨y, hy⟩ := ih (updA s (.bool (b && isFullPost p)) (ofPost p)) (b && isFullPost p) rfl
+    refine ⟨y, ?_⟩
+    simp only [List.map_cons, ofList_cons, Gen.C06F.calc_slicedefs_loop1, bind, Except.bind, hb, hy]
+    simp [updA, Bool.and_assoc]
+
+def ofOrder : Order → V
+  | .C => .str "C"
+  | .F => .str "F"
+
+theorem strIn_order (o : Order) : strInV (ofOrder o) "CF" = .ok true := by
+  cases o <;> decide
+
+theorem ofShape_reverse (l : List Nat) : reversed (ofShape l) = .ok (ofShape l.reverse) := by
+  unfold ofShape
+  rw [reversed_ofList, List.map_reverse]
+
+theorem readCanon_valid (rs : List ReadItem) : ∀ (shape : List Nat), ReadCanon rs shape →
+    ∀ s, IdxItem.slice s ∈ rs.map readToIdx → s.Valid := by
+  induction rs with
+  | nil => intro shape _ s hm; cases hm
+  | cons r rest ih =>
+    intro shape hc s hm
+    cases r with
+    | newaxis =>
+      rw [readCanon_newaxis] at hc
+      simp only [List.map_cons, readToIdx, List.mem_cons] at hm
+      rcases hm with h | h
+      · cases h
+      · exact ih shape hc s h
+    | int i =>
+      cases shape with
+      | nil => exact hc.elim
+      | cons n sh =>
+        rw [readCanon_cons _ _ _ _ (by intro h; cases h)] at hc
+        simp only [List.map_cons, readToIdx, List.mem_cons] at hm
+        rcases hm with h | h
+        · cases h
+        · exact ih sh hc.2 s h
+    | full =>
+      cases shape with
+      | nil => exact hc.elim
+      | cons n sh =>
+        rw [readCanon_cons _ _ _ _ (by intro h; cases h)] at hc
+        simp only [List.map_cons, readToIdx, List.mem_cons] at hm
+        rcases hm with h | h
+        · cases h; decide
+        · exact ih sh hc.2 s h
+    | slice a b c =>
+      cases shape with
+      | nil => exact hc.elim
+      | cons n sh =>
+        rw [readCanon_cons _ _ _ _ (by intro h; cases h)] at hc
+        simp only [List.map_cons, readToIdx, List.mem_cons] at hm
+        rcases hm with h | h
+        · cases h
+          have : 0 < c := hc.1.1
+          show (c : Int) ≠ 0
+          omega
+        · exact ih sh hc.2 s h
+
+theorem itemsWF_valid' : ∀ (items : List Item) (shape : List Nat), ItemsWF items shape → ItemsValid items
+  | [], _, _ => fun s hm => by cases hm
+  | .newaxis :: rest, shape, h => by
+      have h' : ItemsWF rest shape := by cases shape <;> exact h
+      intro s hm
+      cases hm with
+      | tail _ hm => exact itemsWF_valid' rest shape h' s hm
+  | .int i :: rest, [], h => by cases h
+  | .slice sl :: rest, [], h => by cases h
+  | .int i :: rest, n :: shape, h => by
+      intro s hm
+      cases hm with
+      | tail _ hm => exact itemsWF_valid' rest shape h.2 s hm
+  | .slice sl :: rest, n :: shape, h => by
+      intro s hm
+      cases hm with
+      | head => exact h.1
+      | tail _ hm => exact itemsWF_valid' rest shape h.2 s hm
+
+theorem itemsValid_orient (o : Order) (items : List Item) (h : ItemsValid items) : ItemsValid (orient o items) := by
+  cases o
+  · intro s hm; exact h s (by simpa [orient] using hm)
+  · exact h
+
+theorem itemsWF_orient (o : Order) (items : List Item) (shape : List Nat) (h : ItemsWF items shape) :
+    ItemsWF (orient o items) (orient o shape) := by
+  cases o
+  · exact itemsWF_reverse items shape h
+  · exact h
+
+/-- **calc_slicedefs**: the function translated from the source computes the model's slice definitions
+    (segments, read shape, post slicers; C order handled by reversal; post slicers dropped when they are the
+    identity) and raises whenever the model does -/
+theorem gen_calc_slicedefs_eq (h : Heuristic) (idx : List IdxItem) (shape : List Nat) (isz off : Nat) (o : Order)
+    (hv : ∀ s, IdxItem.slice s ∈ idx → s.Valid) :
+    match calcSlicedefs h idx shape isz off o with
+    | .ok d => Gen.C06F.calc_slicedefs (ofList (idx.map ofIdx)) (ofShape shape) (.int (isz : Int)) (.int (off : Int))
+          (ofOrder o) (liftH h) =
+        .ok (.tup3 (ofSegs d.segments) (ofShape (orient o d.readShape))
+              (ofList ((if d.post.all isFullPost then [] else orient o d.post).map ofPost)))
+    | .error _ => ∃ e, Gen.C06F.calc_slicedefs (ofList (idx.map ofIdx)) (ofShape shape) (.int (isz : Int))
+          (.int (off : Int)) (ofOrder o) (liftH h) = .error e := by
+  have hcan := gen_canonical_slicers_eq idx shape true
+  unfold calcSlicedefs canonicalSlicers
+  unfold Gen.C06F.calc_slicedefs
+  simp only [strIn_order, bind_ok, pure_eq_ok, Bool.not_true, Bool.false_eq_true, if_false]
+  cases hres : canonLoop true idx shape with
+  | error e =>
+    rw [hres] at hcan
+    obtain ⟨e', he'⟩ := hcan
+    exact ⟨e', by simp [he']⟩
+  | ok items =>
+    rw [hres] at hcan
+    have hwf := canonLoop_wf idx shape items hv hres
+    have hwfo := itemsWF_orient o items shape hwf
+    have hvalid := itemsValid_orient o items (itemsWF_valid' items shape hwf)
+    have hopt := gen_optimize_read_slicers_eq h (orient o items) (orient o shape) isz hvalid
+    simp only [hcan, bind_ok]
+    have hrev1 : reversed (ofList (items.map ofItem)) = .ok (ofList (items.reverse.map ofItem)) := by
+      rw [reversed_ofList, List.map_reverse]
+    cases hopt' : optimizeLoop h (orient o items) (orient o shape) isz true with
+    | error e =>
+      rw [hopt'] at hopt
+      simp only [bind, Except.bind, hopt']
+      refine ⟨mapErr e, ?_⟩
+      cases o <;> simp_all [ofOrder, orient, pyEq, ofShape_reverse, bind, Except.bind]
+    | ok rp =>
+      obtain ⟨rs, ps⟩ := rp
+      rw [hopt'] at hopt
+      have hrc := optimizeLoop_readCanon h (orient o items) (orient o shape) isz true rs ps hwfo hopt'
+      have hseg := gen_slicers2segments_eq rs (orient o shape) off isz hrc
+      have hpred : Gen.C06F.predict_shape (ofList (rs.map ofRead)) (ofShape (orient o shape)) =
+          .ok (ofShape (readShape rs (orient o shape))) := by
+        have e0 : rs.map ofRead = (rs.map readToIdx).map ofIdx := by
+          simp [List.map_map, Function.comp_def, ofRead_eq_ofIdx]
+        rw [e0]
+        have := gen_predict_shape_eq (rs.map readToIdx) (orient o shape) (readCanon_valid rs _ hrc)
+        rw [predictShape_read rs _ hrc] at this
+        exact this
+      simp only [bind, Except.bind, pure, Except.pure, hopt']
+      cases o
+      · -- C order
+        simp only [orient] at hopt hseg hpred hrc ⊢
+        obtain ⟨y, hl⟩ := dloop_eq (liftH h) ps
+          ⟨ofList (items.reverse.map ofItem), ofShape shape.reverse, .int (isz : Int), .int (off : Int), .str "C",
+            ofList (rs.map ofRead), ofList (ps.map ofPost), ofSegs (slicers2segments rs shape.reverse off isz),
+            .bool true, .none, .none⟩ true rfl
+        have hrs : reversed (ofShape (readShape rs shape.reverse)) = .ok (ofShape (readShape rs shape.reverse).reverse) :=
+          ofShape_reverse _
+        have hrp : reversed (ofList (ps.map ofPost)) = .ok (ofList (ps.reverse.map ofPost)) := by
+          rw [reversed_ofList, List.map_reverse]
+        simp only [List.map_reverse] at hopt hl hrev1 hrp
+        simp [ofOrder, pyEq, hrev1, ofShape_reverse, hopt, hseg, hl, updA, hpred, hrs, hrp]
+        have hnil : reversed V.nil = .ok V.nil := rfl
+        have hasl : ∀ l : List Nat, asList (ofShape l) = .ok (ofShape l) := fun l => by simp [ofShape]
+        have hnila : asList V.nil = .ok V.nil := rfl
+        simp [hnil, hrp, hrs, ofSegs, reversed_ofList, List.map_reverse, hasl, hnila]
+        split <;> simp [hasl, hnila, List.map_reverse]
+      · -- F order
+        simp only [orient] at hopt hseg hpred hrc ⊢
+        obtain ⟨y, hl⟩ := dloop_eq (liftH h) ps
+          ⟨ofList (items.map ofItem), ofShape shape, .int (isz : Int), .int (off : Int), .str "F",
+            ofList (rs.map ofRead), ofList (ps.map ofPost), ofSegs (slicers2segments rs shape off isz),
+            .bool true, .none, .none⟩ true rfl
+        have hasl : ∀ l : List Nat, asList (ofShape l) = .ok (ofShape l) := fun l => by simp [ofShape]
+        have hnila : asList V.nil = .ok V.nil := rfl
+        simp [ofOrder, pyEq, hopt, hseg, hl, updA, hpred, hasl, hnila]
+        split <;> simp [hasl, hnila, ofSegs]
+
 end Nb.C06
